@@ -48,7 +48,7 @@ CHECKS = {
         design="6/C08"),
     "C11": dict(
         technique="Lean 4 proof (acceptance without a trusted list implies membership in the default lists, corollary of C01; set algebra defaults ⊆ families, defaults ∩ dangerous = ∅ decided in the kernel over interned ids) + enumeration of (kind, slot, dangerous name) refusals on the implementation",
-        text="no_T_only_defaults_archive for every JSON schema (no hypothesis on the tree) and no_T_only_defaults for every tree; defaults_in_families / defaults_not_dangerous by decide +kernel on tables regenerated from the live default lists and the installed numpy/scipy/sklearn/stdlib namespaces (589 default names, ~4000 dangerous names); every registered kind is given dangerous names and must report and refuse them.",
+        text="no_T_only_defaults_archive for every JSON schema (no hypothesis on the tree) and no_T_only_defaults for every tree; defaults_in_families / defaults_not_dangerous by decide +kernel on tables regenerated from the live default lists and the installed numpy/scipy/sklearn/stdlib namespaces (589 default names, ~4000 dangerous names); every registered kind is given dangerous names (in every name-bearing position, header-only and content-only for loaders that name a function twice) and must report and refuse them; registries_filtered / foreign_registration_not_default: the two lists built from registries other packages can write to are filtered by the library's own prefix in the current source, and a fresh interpreter in which a foreign package registered classes before skops.io was imported must still report and refuse them.",
         note="Trusted: Lean kernel; translate/trust.py (family predicates and name resolution are evaluated by Python in the pinned environment); quick samples 25 names per kind, thorough enumerates all.",
         design="6/C11"),
     "C13": dict(
@@ -68,8 +68,8 @@ CHECKS = {
         design="6/C05"),
     "C06": dict(
         technique="Lean 4 proof (heap-event model: with the memo pin, ids written in one dump are equal iff the objects are, for every allocation history; counter-history without the pin) + flow facts + identity-partition oracle under allocation stress",
-        text="ids_faithful quantifies over all event sequences of the heap model (arbitrary address reuse); without_pin_ids_collide shows the pin is necessary; flow_facts pins memoize-before-get_state, id from memoize, member names from memoize, single write, clear after; generated DAGs with shared mutable objects and hundreds of temporaries are dumped/loaded and the identity partitions compared.",
-        note="Trusted: Lean kernel; heap model (alloc/free/visit) as an abstraction of CPython's allocator; flow-fact patterns; load-side sharing is covered by the oracle and by construct caching in the io model.",
+        text="ids_faithful quantifies over all event sequences of the heap model (arbitrary address reuse); without_pin_ids_collide shows the pin is necessary; flow_facts pins memoize-before-get_state, id from memoize, member names from memoize, single write, clear after; load side: second_reference_shares / first_reference_memoized on the get_tree model and all_kinds_memoize (decide +kernel on the regenerated table: every loader memoizes except the one that reads the memo); generated DAGs with shared mutable objects (incl. ndarray/bytearray subclasses, masked arrays) and hundreds of temporaries are dumped/loaded and the identity partitions compared.",
+        note="Trusted: Lean kernel; heap model (alloc/free/visit) as an abstraction of CPython's allocator; flow-fact patterns (memoize bodies as exact statement lists); construct-side caching of the io model.",
         design="6/C06"),
     "C07": dict(
         technique="Lean 4 proof (object layer: an estimator with supported state round-trips, arbitrarily nested) + estimator-zoo oracle (state comparator, bitwise method outputs, default-trust census)",
@@ -83,8 +83,8 @@ CHECKS = {
         design="6/C12"),
     "C16": dict(
         technique="Lean 4 proof (statement skeleton of skops.cli._update regenerated from the source by a translator and interpreted over a file-system model: decision table, rewrite frame, no residue, crash safety for every prefix of the operation trace and every chunking of the writes) + traced and killed runs of the real CLI",
-        text="PARTIAL with respect to crash points (proved for the operation model under the POSIX rename contract; real kills are sampled). decision_untouched / both_flags_error / rewritten / input_untouched / crash_safe quantify over every configuration (paths, flags, protocols), file system state and crash point of the model; skeleton_inner/skeleton_main check by rfl that the program the lemmas are about is the translation of the current source; the real CLI is run in forked children over protocol x output form x inplace x pre-existing destination x TMPDIR file system, its audit-hook operation trace, outcome and final file set are compared with the model, and it is killed at every file operation and in the middle of every write.",
-        note="PARTIAL with respect to 'dies at any moment': proved for the operation model under the POSIX rename contract; power-loss durability, path components ./.. and symlinks, permissions and full disks are outside the model (../ paths are exercised on the implementation). Trusted: Lean kernel; translate/skeleton.py (unknown statements become `.unknown`, which no theorem survives); fscheck tracer; comparator. The defects found here were repaired (fixed:b25e65d).",
+        text="PARTIAL with respect to crash points (proved for the operation model under the POSIX rename contract; real kills are sampled). decision_untouched / both_flags_error / rewritten / input_untouched / crash_safe quantify over every configuration (paths, flags, protocols), file system state and crash point of the model; skeleton_inner/skeleton_main check by rfl that the program the lemmas are about is the translation of the current source; the real CLI is run in forked children over protocol x output form x inplace x pre-existing destination x TMPDIR file system, its audit-hook operation trace, outcome and final file set are compared with the model, and it is killed at every file operation, in the middle of every write and just before a written file is closed. io_fault_safe (fault interpreter Fs/Fault.lean, equal to the plain one when nothing fails: updateF_none): whichever single file operation fails with an I/O error, for every chunking, the destination is old or complete-new, nothing else is altered and nothing remains unless the removal of the temporary directory is what failed; the real CLI is re-run once per file operation with that operation raising ENOSPC and compared with the model under the same fault.",
+        note="PARTIAL with respect to 'dies at any moment': proved for the operation model under the POSIX rename contract; power-loss durability, path components ./.. and symlinks, permissions and more than one I/O fault per run are outside the model (../ paths are exercised on the implementation); Python's own write buffer exists only on the implementation side (pre-close kill point). Trusted: Lean kernel; translate/skeleton.py (unknown statements become `.unknown`, which no theorem survives); fscheck tracer; comparator. The defects found here were repaired (fixed:b25e65d).",
         design="6/C16"),
     "C17": dict(
         technique="Lean 4 proof (skeleton of skops.cli._convert from the translator: no file operation at all when the object cannot be persisted; output path, frame and warning condition on success) + runs of the real CLI compared with the model and with the unpickled object",
